@@ -95,5 +95,6 @@ pub fn case(data: &[u8], prop: &str) -> arbitrary::Result<Case> {
         steps,
         matrix: None,
         sweep: None,
+            timed: None,
     })
 }
